@@ -73,7 +73,7 @@ def base_dir(garble_bin):
     return os.path.join(CACHE, "base", th)
 
 
-def ensure_base(g, flags, env=None, buildflags=()):
+def ensure_base(g, flags, env=None, buildflags=(), modpath="example.com/fat", extra_files=None):
     """Directory with gocache/ and garblecache/ holding the standard library built for this configuration by this garble binary."""
     root = base_dir(g.bin)
     key = cfgkey(flags, env, buildflags)
@@ -100,7 +100,9 @@ def ensure_base(g, flags, env=None, buildflags=()):
         fast_clone(os.path.join(plain, "garblecache"), os.path.join(d, "garblecache"))
         gb = Garble(binpath=g.bin, gocache=os.path.join(d, "gocache"), garblecache=os.path.join(d, "garblecache"), name="base")
         pd = gb.newdir("fat")
-        write_module(pd, {"main.go": FAT}, modpath="example.com/fat")
+        files = {"main.go": FAT}
+        files.update(extra_files or {})   # e.g. a package that a GOGARBLE pattern of the configuration must match
+        write_module(pd, files, modpath=modpath)
         p = gb.garble(flags, "build", ["-o", os.devnull] + list(buildflags) + ["."], pd, extra_env=env)
         if p.returncode != 0:
             log("FATAL: cannot prepare base cache for", flags, env, short(p.stderr, 2000)); sys.exit(2)
